@@ -407,6 +407,10 @@ macro_rules! total_k {
 total_k!(k02_total_unary_k2, 3, 0b001, 3, 5, 2); // injl injr take drop, reference < 16
 total_k!(k02_total_disconnect1_k2, 3, 0b01011, 5, 5, 2);
 total_k!(k02_total_word_k2, 3, 0b10, 2, 2, 2); // word length field < 16
+// the same classes with a unary prefix of at most 3 ones: back references below 2^16 (thorough)
+total_k!(k02_total_unary_k3, 5, 0b001, 3, 5, 3);
+total_k!(k02_total_disconnect1_k3, 5, 0b01011, 5, 5, 3);
+total_k!(k02_total_word_k3, 5, 0b10, 2, 2, 3);
 // classes with back references: the real read_natural on arbitrary bits (thorough)
 total!(k02_total_unary, 6, 0b001, 3); // injl injr take drop
 total!(k02_total_disconnect1, 6, 0b01011, 5);
